@@ -242,7 +242,9 @@ class C07(Prop):
             "non-trivial = the fault actually fired inside the target command")
     assumptions = ["scenarios are sampled, faults within a scenario are enumerated exhaustively",
                    "a real git subprocess is atomic for the fault injector",
-                   "the user's own git command is never a fault target", "stderr is not compared"]
+                   "the user's own git command is never a fault target", "stderr is not compared",
+                   "a call that exits 0 with a truncated answer (short:*) is held to every clause except 'no attribution is "
+                   "invented': a success that lies is outside the property's quantifier (failing call / killed wrapper)"]
     expected_probes = ["outcome.as_git", "outcome.refused_before_git", "fault.kill.fired", "fault.journal.fired",
                        "fault.corrupt.applied"]
 
@@ -576,7 +578,11 @@ class C07(Prop):
             "%s|%s|%s|%s|%s" % (trace["cfg"]["target"], fault["family"], fault["kind"],
                                 fault.get("point") or fault.get("file", "").split("/")[-1] or " ".join(fault.get("argv", [])[:3]),
                                 outcome))
-        if outcome == "as_git":
+        # a call that reports success but delivers a truncated answer (kind short:*) is not a failure git-ai can see:
+        # C07 quantifies over failing calls and a killed wrapper, so the "no attribution is invented" clause is not
+        # demanded there (everything else - git's own outcome, later commands, readable notes - still is)
+        lying = fault["family"] == "git" and str(fault.get("kind", "")).startswith("short") and not trace.get("strict_short")
+        if outcome == "as_git" and not lying:
             from ..engine import in_progress as _inp
             if not _inp(b.w, repo_b):
                 v = check_blame(b, repo_b, ex.sessions, one_sided=True, gitai=False)
@@ -635,7 +641,7 @@ class C07(Prop):
             if isinstance(p, noteparse.NoteError):
                 return {"monitor": "fault.followup", "class": "note_unreadable_after_fault",
                         "detail": dict(detail, commit=c, error=str(p))}
-        v = check_blame(b, repo_b, ex.sessions, one_sided=True, notes=notes)
+        v = None if lying else check_blame(b, repo_b, ex.sessions, one_sided=True, notes=notes)
         if v:
             v["monitor"] = "fault.followup"
             v["class"] = "attribution_invented_after_fault_" + v["class"]
